@@ -462,13 +462,17 @@ func init() {
 		Assume:      []string{"reference registry model in props/model.go (written from the documentation)", "constructors are reflect.MakeFunc / handwritten functions that record their own invocation"},
 		MinOutcomes: 10,
 		Jobs: func(tier string) []mc.Job {
-			return []mc.Job{
+			jobs := []mc.Job{
 				{Name: "fnkinds", Run: c04FnKinds},
 				{Name: "forms-1", Run: func(r *mc.Report) { c04Forms(r, 1) }},
 				{Name: "forms-2", Run: func(r *mc.Report) { c04Forms(r, 2) }},
 				{Name: "replaced-output", Run: c04Replace},
 				{Name: "nil-output", Run: c04NilOutputs},
 			}
+			if tier == "thorough" {
+				jobs = append(jobs, mc.Job{Name: "forms-3", Weight: 50, Run: func(r *mc.Report) { c04Forms(r, 3) }})
+			}
+			return jobs
 		},
 	})
 }
@@ -566,12 +570,24 @@ func forEachFormCase(r *mc.Report, nprod int, run func(c formCase)) {
 					run(formCase{Prod: []string{a.Name}, Shape: shape, ProdLife: lf[0], ConsLife: lf[1], ConsFirst: true})
 					run(formCase{Prod: []string{a.Name}, Shape: shape, ProdLife: lf[0], ConsLife: lf[1], ConsFirst: true, Reverse: true})
 				}
-			} else {
+			} else if nprod == 2 {
 				for i, a := range tp {
 					for _, b := range tp[i+1:] {
 						run(formCase{Prod: []string{a.Name, b.Name}, Shape: shape, ProdLife: lf[0], ConsLife: lf[1]})
 						if lf[0] == "singleton" && lf[1] == "singleton" {
 							run(formCase{Prod: []string{a.Name, b.Name}, Shape: shape, ProdLife: lf[0], ConsLife: lf[1], ConsFirst: true})
+						}
+					}
+				}
+			} else {
+				// three producer templates at once (thorough): In-struct consumers, uniform lifetimes
+				if shape != "in" || lf[0] != lf[1] {
+					continue
+				}
+				for i, a := range tp {
+					for j := i + 1; j < len(tp); j++ {
+						for _, c := range tp[j+1:] {
+							run(formCase{Prod: []string{a.Name, tp[j].Name, c.Name}, Shape: shape, ProdLife: lf[0], ConsLife: lf[1]})
 						}
 					}
 				}
